@@ -140,6 +140,9 @@ def _load_v1(stream: InventoryFileReader, base_url: str | None) -> InventoryType
         "objects": {},
     }
     for line in lines:
+        if not line:
+            # a blank line is not an entry
+            continue
         name, objtype, location = line.rstrip().split(None, 2)
         # version 1 did not add anchors to the location
         domain = "py"
@@ -233,11 +236,13 @@ class InventoryFileReader:
         return line
 
     def readlines(self) -> Iterator[str]:
+        # split the rest of the stream at every line boundary that Sphinx
+        # (str.splitlines) recognises; blank lines are kept, since the header
+        # lines of a v1 inventory are identified by their position
         while not self.eof:
-            line = self.readline()
-            if line:
-                # split at every line boundary that Sphinx (str.splitlines) recognises
-                yield from line.splitlines()
+            self.read_buffer()
+        content, self.buffer = self.buffer, b""
+        yield from content.decode().splitlines()
 
     def read_compressed_chunks(self) -> Iterator[bytes]:
         decompressor = zlib.decompressobj()
